@@ -206,6 +206,14 @@ def main(argv):
     faulthandler.enable()
     mode, check, inpath, outpath = argv[:4]
     mod = importlib.import_module("checks." + check.lower())
+    # a runaway (harness or repository) must become a MemoryError in this process, not take the box down
+    try:
+        import resource
+
+        lim = int(getattr(mod, "MEM_LIMIT_GB", 8)) << 30
+        resource.setrlimit(resource.RLIMIT_AS, (lim, lim))
+    except Exception:
+        pass
     seed = int(os.environ.get("VERIF_SEED", "0") or 0)
     tier = os.environ.get("VERIF_TIER", "quick")
     signal.signal(signal.SIGALRM, _alarm)
